@@ -379,7 +379,7 @@ func writeEvidence(prop, tier string, seed int, rr *RunResult, spec *Spec, repla
 			perH = append(perH, map[string]interface{}{
 				"name": h.Name, "doc": h.Doc, "bounds": h.Bounds, "params": h.Params, "paths": h.Paths, "completed_paths": h.Completed,
 				"path_ends": h.Ends, "assert_queries": h.Obligations, "assert_unsat": h.Discharged, "assert_reached": h.Reached,
-				"violations": len(h.Violations), "inconclusive": h.Inconcl, "covers": h.Covers, "wall_s": h.WallS, "panic_ends": h.PanicEnds,
+				"violations": len(h.Violations), "inconclusive": h.Inconcl, "feasibility_unknown_both_sides_explored": h.FeasUnknown, "covers": h.Covers, "wall_s": h.WallS, "panic_ends": h.PanicEnds,
 			})
 		}
 		nrep = len(replays)
